@@ -187,7 +187,53 @@ class FunctionAnalysis:
         self.kind_obligation()
         self.hash_obligation()
         self.memo_read_obligation()
+        self.memo_input_obligation()
         return self.obligations
+
+    def _late_assigned(self):
+        """field names X with an assignment ``<obj>.X = ...`` (also augmented) anywhere in the repository outside
+        ``__init__`` / ``__new__`` / ``__setstate__`` / ``__post_init__`` - fields whose value can change after the
+        constructor of the object has returned (e.g. ``_location``, re-parented in place by ``_reset_parent`` when the
+        object is attached to a collection, or by the table writer)."""
+        cache = getattr(self.repo, "_late_assigned_cache", None)
+        if cache is not None:
+            return cache
+        out = {}
+        for mod in self.repo.modules.values():
+            for fn in ast.walk(mod.tree):
+                if not isinstance(fn, (ast.FunctionDef, ast.AsyncFunctionDef)):
+                    continue
+                if fn.name in ("__init__", "__new__", "__setstate__", "__post_init__"):
+                    continue
+                for n in ast.walk(fn):
+                    tg = []
+                    if isinstance(n, ast.Assign):
+                        tg = n.targets
+                    elif isinstance(n, (ast.AugAssign, ast.AnnAssign)):
+                        tg = [n.target]
+                    for t in tg:
+                        for a in ast.walk(t):
+                            if isinstance(a, ast.Attribute) and isinstance(a.ctx, ast.Store):
+                                out.setdefault(a.attr, set()).add(fn.name)
+        self.repo._late_assigned_cache = out
+        return out
+
+    def memo_input_obligation(self):
+        """A memoised accessor (lru_cache on a method / property: the cache key is the argument values, NOT the state
+        of the object) may read only fields that never change after construction and memo slots it owns; reading a
+        field that is re-assigned later (``_location`` is, in place, when an interval is attached to a collection)
+        makes its answer depend on whether it was asked before the re-assignment."""
+        if self.f.cls is None or self.repo is None or self.is_ctor:
+            return
+        decos = [ast.unparse(d) for d in getattr(self.node, "decorator_list", [])]
+        if not any("lru_cache" in d or "cached_property" in d for d in decos):
+            return
+        late = self._late_assigned()
+        reads = self._fields_read(self.f)
+        bad = sorted(x for x in reads if x in late and x not in MEMO_SLOTS)
+        self.obligations.append(Ob("frame:memoised-accessor-reads-only-construction-time-fields", not bad,
+                                   f"memoised, but reads {bad} which {sorted(set().union(*[late[x] for x in bad]))} "
+                                   "re-assign after construction: the cached answer goes stale" if bad else ""))
 
     def memo_read_obligation(self):
         """no accessor other than the owner (and the declared readers) may look at a memo slot: a value that depends on
